@@ -226,6 +226,24 @@ example : cursorMethodSafe
      { name := "Truncate", checksFirst := false, delegatesTo := "", derefsFirst := true }] 3 "Truncate" = false := by
   decide
 
+/-- **C10_mlink_current.**  The facts regenerated from mlink/queue.go and mlink/list.go by `extract/mlinkq.go`
+(`Gen.MlinkQueue`) are the pinned ones: `Queue.Pop` resets `q.back` exactly when `q.list.IsEmpty()` (not on a
+test of `q.size`), `Pop`/`Add`/`Clear` leave `q.size - 1` / `q.size + 1` / `0`, `Cursor.Remove` self-links the
+removed entry unconditionally, `Cursor.Truncate` invalidates the tail before it cuts it off; and the extractor
+recognised the statement skeleton of every `Queue` method, of `Cursor.Remove`, `Truncate`, `Add` and of
+`entry.invalidate` (which cursor `Add` uses, `Clear`'s resets, the delegating one-liners as text).
+`Model.Mlink.remove`, `truncate`, `qadd`, `qpop`, `qclear` call these definitions; a change in one of them
+changes `Gen/MlinkQueue.lean`, and this theorem and the `*_def` lemmas of `Proofs.Mlink` no longer compile. -/
+theorem C10_mlink_current :
+    Gen.MlinkQueue.recognised = true ∧
+    (∀ listEmpty size, Gen.MlinkQueue.popResets listEmpty size = listEmpty) ∧
+    (∀ size, Gen.MlinkQueue.popSize size = size - 1) ∧
+    (∀ size, Gen.MlinkQueue.addSize size = size + 1) ∧
+    Gen.MlinkQueue.clearSize = 0 ∧
+    Gen.MlinkQueue.removeSelfLinksAlways = true ∧
+    Gen.MlinkQueue.truncateInvalidatesFirst = true :=
+  ⟨rfl, fun _ _ => rfl, fun _ => rfl, fun _ => rfl, rfl, rfl, rfl⟩
+
 end stale
 
 /-!
@@ -559,9 +577,9 @@ theorem step_no_hang (s : St) (hs : RInv s) (op : Op) : (step s op).2 ≠ .hang 
   | join d r t =>
     simp only [step]
     cases hr : s.reg r with
-    | none => cases ht : s.reg t <;> simp [join]
+    | none => cases ht : s.reg t <;> simp [join_nn, join_ns]
     | some a => cases ht : s.reg t with
-      | none => simp [join]
+      | none => simp [join_sn]
       | some b =>
         obtain ⟨h', p, e, _⟩ := join_inv s.h hs.inv a b (hs.regs r a hr) (hs.regs t b ht)
         rw [e]; simp
@@ -666,6 +684,52 @@ example : (of {} [1, 2, 3]).1.next = [2, 0, 1] ∧
       .each 0 9, .pop 4 1, .each 0 9, .each 4 9, .len 0, .peek 0 (-1), .peek 0 4, .join 5 6 0]
     = [.unit, .unit, .unit, .list [2, 3], .list [1, 4, 5], .unit, .list [1, 4, 2, 3, 5],
        .unit, .list [1, 2, 3, 5], .list [4], .nat 4, .pair 5 true, .pair 0 false, .panicNil] := by decide
+
+/-- **C10_ring_current.**  The pointer surgery of ring/ring.go as regenerated by `extract/ring.go` on every run
+(`Gen.Ring`) is the pinned one: `Join`'s early-return disjuncts in order, its locals, its four assignments IN
+ORDER with their operands, its result; `Pop`'s guard, locals and four assignments; the four assignments of
+`New`'s loop body; `New`'s two tests; the fields behind `Next`/`Prev`; `At`'s sign test, negation and the two
+step functions; `scan`'s wrap test and step; and the extractor recognised the statement skeleton of every
+function of the package.  `Model.Ring.join`, `pop`, `newLoop` *interpret* these tables on the heap and `new`,
+`at_` call the facts, so `C10_ring_history` is about the statements that are in the source now: a reordered
+assignment, a changed operand or field, or a changed test changes `Gen/Ring.lean`, and this theorem and the
+`join_ss` / `pop_some` / `newLoop_succ'` / `new_def` / `at_some` lemmas of `Proofs.Ring` no longer compile.
+(`newGoes`, `atGoes`, `nextFld`, `prevFld`, `scanWrapFld`, `scanStepFld` are not used by the model — loops are
+recursions on the counter, `Next`/`Prev`/`scan` read `nx`/`pv` directly — and are tied by this theorem alone.) -/
+theorem C10_ring_current :
+    Gen.Ring.recognised = true ∧
+    -- Join: `if r == s || r.next == s { return nil }; rnext, sprev := r.next, s.prev`
+    Gen.Ring.joinEarly = [(⟨.r, []⟩, ⟨.s, []⟩), (⟨.r, [.next]⟩, ⟨.s, []⟩)] ∧
+    Gen.Ring.joinLocals = [(.rnext, ⟨.r, [.next]⟩), (.sprev, ⟨.s, [.prev]⟩)] ∧
+    -- `r.next = s; s.prev = r; sprev.next = rnext; rnext.prev = sprev; return rnext`
+    Gen.Ring.joinAssigns = [⟨⟨.r, []⟩, .next, ⟨.s, []⟩⟩, ⟨⟨.s, []⟩, .prev, ⟨.r, []⟩⟩,
+      ⟨⟨.sprev, []⟩, .next, ⟨.rnext, []⟩⟩, ⟨⟨.rnext, []⟩, .prev, ⟨.sprev, []⟩⟩] ∧
+    Gen.Ring.joinReturn = ⟨.rnext, []⟩ ∧
+    -- Pop: `if r != nil && r.prev != r { rprev, rnext := r.prev, r.next; … }`
+    Gen.Ring.popGuard = [(⟨.r, [.prev]⟩, ⟨.r, []⟩)] ∧
+    Gen.Ring.popLocals = [(.rprev, ⟨.r, [.prev]⟩), (.rnext, ⟨.r, [.next]⟩)] ∧
+    -- `rprev.next = r.next; rnext.prev = r.prev; r.prev = r; r.next = r`
+    Gen.Ring.popAssigns = [⟨⟨.rprev, []⟩, .next, ⟨.r, [.next]⟩⟩, ⟨⟨.rnext, []⟩, .prev, ⟨.r, [.prev]⟩⟩,
+      ⟨⟨.r, []⟩, .prev, ⟨.r, []⟩⟩, ⟨⟨.r, []⟩, .next, ⟨.r, []⟩⟩] ∧
+    -- New: `if n <= 0`, `for n > 1`, `elt.next = r.next; r.next.prev = elt; elt.prev = r; r.next = elt`
+    (∀ n, Gen.Ring.newNil n = decide (n ≤ 0)) ∧
+    (∀ n, Gen.Ring.newGoes n = decide (n > 1)) ∧
+    Gen.Ring.newAssigns = [⟨⟨.elt, []⟩, .next, ⟨.r, [.next]⟩⟩, ⟨⟨.r, [.next]⟩, .prev, ⟨.elt, []⟩⟩,
+      ⟨⟨.elt, []⟩, .prev, ⟨.r, []⟩⟩, ⟨⟨.r, []⟩, .next, ⟨.elt, []⟩⟩] ∧
+    -- Next, Prev, At, scan
+    Gen.Ring.nextFld = .next ∧ Gen.Ring.prevFld = .prev ∧
+    (∀ n, Gen.Ring.atNeg n = decide (n < 0)) ∧
+    (∀ n, Gen.Ring.atNegated n = -n) ∧
+    Gen.Ring.atFwd = .next ∧ Gen.Ring.atBack = .prev ∧
+    (∀ n, Gen.Ring.atGoes n = decide (n > 0)) ∧
+    Gen.Ring.scanWrapFld = .next ∧ Gen.Ring.scanStepFld = .next :=
+  ⟨rfl, rfl, rfl, rfl, rfl, rfl, rfl, rfl, fun _ => rfl, fun _ => rfl, rfl, rfl, rfl, fun _ => rfl, fun _ => rfl,
+   rfl, rfl, fun _ => rfl, rfl, rfl⟩
+
+/-- non-vacuity of the table interpreter: the model's `Join` of two elements of one ring executes the four
+regenerated assignments on the heap (`Of 1 2 3 4`, `Join` of the first and third element splices out the second) -/
+example : (join (of {} [1, 2, 3, 4]).1 (some 0) (at_ (of {} [1, 2, 3, 4]).1 (some 0) 2)) =
+    .ok ({ vals := [1, 4, 3, 2], next := [2, 0, 1, 3], prev := [1, 2, 0, 3] }, some 3) := by decide
 
 end ring
 
